@@ -176,10 +176,9 @@ theorem encSigP_val (s : ASig α) : encSigP (fun x : α => DV.val x) s = encSig 
 def encPair (p : α × α) : DV α := .pair (.val p.1) (.val p.2)
 
 open Rtamt.Dense.AlgOn in
-/-- the pending sample `last` of the online intersection: `[]`, the float NaN of case 1, or `[t, v]` -/
+/-- the pending sample `last` of the online intersection: `[]` or `[t, v]` -/
 def encLast {β : Type} (encP : β → DV α) : Rtamt.Dense.AlgOn.Last β → DV α
   | .nil => .list []
-  | .nan => .nan
   | .item t v => .smp t (encP v)
 
 /-- `self.last_output` / `self.last` of the operation classes: `[]` or a sample -/
